@@ -109,6 +109,13 @@ func (s *cpSource) prune(v uint64) {
 // buildCPSource builds the source database: versions cpv-Pre .. cpv+Post, the contents of
 // version cpv being `contents`, the Prune earliest ones pruned.
 func buildCPSource(ctx context.Context, ndb dbapi.NodeDB, keys [][]byte, contents Model, cpv uint64, rootType node.RootType, h *CPHist, st *core.Stats) *cpSource {
+	return buildCPSourceUpTo(ctx, ndb, keys, contents, cpv, rootType, h, st, false)
+}
+
+// buildCPSourceUpTo is buildCPSource; with below set only the versions before the checkpointed
+// one are committed (the same ones as in the full history: a database that holds the older part
+// of the source's history).
+func buildCPSourceUpTo(ctx context.Context, ndb dbapi.NodeDB, keys [][]byte, contents Model, cpv uint64, rootType node.RootType, h *CPHist, st *core.Stats, below bool) *cpSource {
 	s := &cpSource{ndb: ndb, keys: keys, rootType: rootType, models: map[uint64]Model{}, roots: map[uint64]node.Root{}, cpv: cpv, st: st,
 		live: core.NewRand(core.Derive(h.Seed, "live", 0)), liveLeft: h.Live}
 	r := core.NewRand(h.Seed)
@@ -125,7 +132,13 @@ func buildCPSource(ctx context.Context, ndb dbapi.NodeDB, keys [][]byte, content
 	}
 	s.earliest = cpv - uint64(pre)
 	for v := s.earliest; v <= cpv+uint64(h.Post); v++ {
+		if below && v >= cpv {
+			break
+		}
 		s.commit(ctx, v, ms[v])
+	}
+	if below {
+		return s
 	}
 	for i := 0; i < h.Prune && s.earliest < cpv; i++ {
 		s.prune(s.earliest)
